@@ -19,7 +19,7 @@ RULE = ("Hypothesis: general graphs x switches x target mode; per graph a thresh
         "An evaluation is one graph x configuration (all its pairs).  Non-trivial: some pair with keys(t2) a proper subset of keys(t1); "
         "distinct by SHA-1 of the case.")
 ASSUMPTIONS = c01.ASSUMPTIONS
-BUDGET = {"quick": {"examples": 4800, "wall": 150}, "thorough": {"examples": 200000, "wall": 5400}}
+BUDGET = {"quick": {"examples": 4800, "wall": 150}, "thorough": {"examples": 100000, "wall": 900}}
 FLOORS = {"nontrivial": 0.3}
 KNOWN = ("C02-MIXEDKIND", "C02-GONEREF")
 
